@@ -131,16 +131,16 @@ func getSpatialIdAttrs(spatialId string) (int, int, int, int, error) {
 		// 不正形式(要素数)
 		return 0, 0, 0, 0, errors.NewSpatialIdError(errors.InputValueErrorCode, fmt.Sprintf("spatialId: %v", spatialId))
 	}
-	var errNumberConversion error
-	zoom, errNumberConversion := strconv.Atoi(spatialIdAttributes[0])
-	f, errNumberConversion := strconv.Atoi(spatialIdAttributes[1])
-	x, errNumberConversion := strconv.Atoi(spatialIdAttributes[2])
-	y, errNumberConversion := strconv.Atoi(spatialIdAttributes[3])
-	// 不正形式(数値)
-	if errNumberConversion != nil {
-		return 0, 0, 0, 0, errors.NewSpatialIdError(errors.InputValueErrorCode, fmt.Sprintf("spatialId: %v", spatialId))
+	var attributes [4]int
+	for i, attribute := range spatialIdAttributes {
+		value, errNumberConversion := strconv.Atoi(attribute)
+		// 不正形式(数値)
+		if errNumberConversion != nil {
+			return 0, 0, 0, 0, errors.NewSpatialIdError(errors.InputValueErrorCode, fmt.Sprintf("spatialId: %v", spatialId))
+		}
+		attributes[i] = value
 	}
-	return zoom, f, x, y, nil
+	return attributes[0], attributes[1], attributes[2], attributes[3], nil
 }
 
 // CheckExtendedSpatialIdsOverlap 2つの拡張空間IDの重複の判定関数
